@@ -243,4 +243,35 @@ example : Table.ok { Generated.derefWriteTable with
     projs := [{ kind := .deref, recv := .rc, text := "Rc<T>", targetStatic := false, idx := .na, gate := "" }] } = false := by
   decide
 
+/-! ## Ties of the hand-written example entries to the generated table -/
+
+open GcArena.WriteCap.Example in
+/-- The entries `mutant_witness` is stated about are the crate's: modulo the header text and the cfg
+gate, every `IndexWrite<_> for [T]` row of the generated table is one of `Example.sliceEntries` and
+conversely, and the generated `Vec` row is `Example.vecCurrent` (index type delegated to `[T]`). -/
+theorem slice_entries_match :
+    let strip := fun (p : ProjImpl) => { p with text := "", gate := "" }
+    let gen := (Generated.derefWriteTable.projs.filter
+      (fun p => p.kind == .index && p.recv == .slice)).map strip
+    gen ≠ [] ∧ gen.all ((sliceEntries.map strip).contains ·) = true ∧
+    (sliceEntries.map strip).all (gen.contains ·) = true ∧
+    ((Generated.derefWriteTable.projs.filter (fun p => p.kind == .index && p.recv == .vec)).map strip)
+      = [strip vecCurrent] := by decide
+
+/-! ## The clause, over the calculus
+
+"No program free of unsafe code can make an already allocated object come to hold a `Gc` without a
+write barrier on every object through which that storage is reachable" — rendered over the
+derivation calculus of `Model/WriteCap.lean` for the **current** crate (the regenerated table).
+What this rendering does *not* contain: that rustc admits exactly the derivations of the calculus
+(trusted, cross-checked by the probe corpus), and the identification of the calculus' holders /
+barrier predicate with the collector model (see `covered_is_collector_cover` and the list of
+informal steps there). -/
+def no_unbarriered_adoption_statement : Prop :=
+  ∀ (env : Env) (B : WriteCap.Obj → Prop) (it : Item),
+    Der Generated.derefWriteTable env B it → Covered env B it
+
+theorem no_unbarriered_adoption : no_unbarriered_adoption_statement :=
+  fun env B it h => covered _ table_ok env B it h
+
 end GcArena.C13
